@@ -52,7 +52,7 @@ func (l Layout) Valid() bool {
 	}
 	total := int64(0)
 	for i, a := range l.Archs {
-		if a.S <= 0 || a.N <= 0 || a.R() > 400*86400 {
+		if a.S <= 0 || a.N <= 0 || a.R() > math.MaxInt32 {
 			return false
 		}
 		total += a.N
@@ -168,6 +168,14 @@ func genLayout(r *rand.Rand, class string) Layout {
 			n1 := s0*n0/s1 + 1 + between(r, 0, 400)
 			archs = append(archs, Arch{s1, n1})
 		}
+	case "epoch":
+		// the coarsest retention reaches back beyond the epoch: now - retention
+		// is negative for every clock before the 2030s (a legal layout, e.g.
+		// 1d:1y,30d:65y)
+		archs = []Arch{{86400, between(r, 30, 400)}, {2592000, between(r, 700, 820)}}
+		if chance(r, 0.3) {
+			archs = archs[1:]
+		}
 	case "edge":
 		s0 := pick(r, stepChoices...)
 		ratio := pick(r, int64(2), 3, 4, 5, 6)
@@ -238,6 +246,18 @@ func genLayout(r *rand.Rand, class string) Layout {
 // (maxRetention + maxStep <= now < 2^31 - maxRetention), biased towards step
 // boundaries of the coarsest archive.
 func genClock0(r *rand.Rand, l Layout) int64 {
+	if l.MaxRet() > 1<<30 {
+		// "epoch" layouts: a clock at which the retention reaches beyond the epoch
+		hi := l.MaxRet() - 1
+		if hi > math.MaxInt32-400*86400 {
+			hi = math.MaxInt32 - 400*86400
+		}
+		t := between(r, 946684800+86400, hi)
+		if r.IntN(3) == 0 {
+			t -= t % l.Archs[0].S
+		}
+		return t
+	}
 	lo := int64(946684800) + 86400 // bubbles start at 2000-01-01
 	if lo < l.MaxRet()+l.MaxStep() {
 		lo = l.MaxRet() + l.MaxStep()
